@@ -38,6 +38,13 @@ CHECKS = {
         "bounded space is replayed on real objects: the receiver is deep-compared before/after every call including overlapping pairs, the content is compared when no "
         "new path equals or extends another, malformed pairs must be rejected.",
    ref="DESIGN.md section 4, C12", technique="TLA+ spec + TLC exhaustive enumeration, spec->code replay on live objects"),
+ "C13": dict(
+   text="TLA+ specification MxjStream of source (every legal per-byte outcome of io.Reader.Read: data, data+EOF, (0,nil), EOF), byte adaptor, decoder, "
+        "single-call loop and bulk handlers with nondeterministic verdicts; XML document boundaries by construction, the JSON brace scanner modelled at character level over "
+        "streams constructed from abstract objects (braces, quotes, escaped quotes and backslashes in strings). TLC checks exhaustively for every stream profile and "
+        "every schedule: no loss/duplication, no over-read, results = documents in order then EOF, Raw exact, handler discipline, termination under fairness; every complete "
+        "behaviour is replayed by a scripted io.Reader against all reader entry points, and every profile (whole and cut at every byte) through real temporary files.",
+   ref="DESIGN.md section 4, C13", technique="TLA+ spec of reader/adaptor/decoder/handler processes, TLC exhaustive over schedules incl. liveness, schedule replay with scripted io.Reader"),
 }
 NOT_YET = "machinery for this property is not built yet in this round (design in DESIGN.md section 4); no claim is made"
 
